@@ -277,6 +277,9 @@ CONC_CASES = {
     'reassign-current-vs-error': [[['assign', 'm', 'x', 0]], [['error', 'm', 'x', 'boom'], ['assign', 'm', 'x', 0]]],
     'three-writers': [[['assign', 'm', 'x', 1]], [['write', 'm', 'x', 2]], [['change', 'm', '_x', 3]]],
     'read-fail-vs-read-ok': [[['read', 'm', 'value', None]], [['read', 'm', 'value', None]]],
+    # another (activated) connection leaves and comes back while updates are fanned out: the observer's stream is unaffected
+    'assign-vs-leaver': [[['assign', 'm', 'value', 1.5], ['assign', 'm', 'x', 7]], [['req', 'deactivate'], ['req', 'activate']]],
+    'assign-vs-joiner': [[['assign', 'm', 'value', 1.5]], [['req', 'deactivate'], ['req', 'activate m'], ['req', '*IDN?']]],
 }
 CONC_READS = {
     'default': {'m': {'x': [11, 12], 'value': [9.5, 8.5]}},
@@ -314,6 +317,10 @@ def conc_execute(case, prefix):
         holder['obs'] = obs
         reqconn = N.ObserverConn(sched, 'c4')     # the connection issuing change requests (not activated)
         node.dispatcher.add_connection(reqconn)
+        other = N.ObserverConn(sched, 'c5')       # a further activated connection that changes its activation state
+        if any(op[0] == 'req' for ops in case['threads'] for op in ops):
+            node.dispatcher.add_connection(other)
+            node.request_msg(other, ('activate', None, None))
         sched.log.append(('init', N.current_cache(node)))
         sched.begin()
 
@@ -322,6 +329,9 @@ def conc_execute(case, prefix):
                 for op in ops:
                     if op[0] == 'change':
                         node.request_msg(reqconn, ('change', f'{op[1]}:{op[2]}', op[3]))
+                    elif op[0] == 'req':
+                        action, _, spec = op[1].partition(' ')
+                        node.request_msg(other, (action, spec or None, None))
                     else:
                         N.driver_op(node, op)
             return run
